@@ -214,11 +214,17 @@ class Shard:
 # -- known findings -------------------------------------------------------------------
 
 def load_findings(prop):
-    path = os.path.join(VERIF, "known_findings.json")
-    if not os.path.exists(path):
-        return []
-    data = json.load(open(path))
-    return [f for f in data.get("findings", []) if f["property"] == prop]
+    """Open findings for `prop`: known_findings.json plus findings/<ID>.json.
+
+    Entries under "fixed" suppress nothing and are never loaded.
+    """
+    out = []
+    for path in (os.path.join(VERIF, "known_findings.json"),
+                 os.path.join(VERIF, "findings", prop + ".json")):
+        if os.path.exists(path):
+            data = json.load(open(path))
+            out += [f for f in data.get("findings", []) if f["property"] == prop]
+    return out
 
 
 _SAFE = {"abs": abs, "min": min, "max": max, "len": len, "any": any, "all": all,
